@@ -229,6 +229,35 @@ type runner struct {
 	stop        bool
 }
 
+// prune gate: the background prune goroutine started by Tree.Save passes here before it begins
+type pruneGate struct {
+	mu      sync.Mutex
+	ch      chan struct{}
+	started int64
+}
+
+var gate pruneGate
+
+func (g *pruneGate) fn(cur int64) {
+	g.mu.Lock()
+	g.started++
+	ch := g.ch
+	g.mu.Unlock()
+	if ch != nil {
+		<-ch
+	}
+}
+func (g *pruneGate) arm() { g.mu.Lock(); g.ch = make(chan struct{}); g.mu.Unlock() }
+func (g *pruneGate) release() {
+	g.mu.Lock()
+	if g.ch != nil {
+		close(g.ch)
+		g.ch = nil
+	}
+	g.mu.Unlock()
+}
+func (g *pruneGate) count() int64 { g.mu.Lock(); defer g.mu.Unlock(); return g.started }
+
 func (r *runner) open() {
 	sub, _ := json.Marshal(map[string]any{"enableMavlPrefix": true, "enableMavlPrune": true, "pruneHeight": r.h.Cfg.PH,
 		"enableMemTree": r.h.Cfg.MemTree, "enableMemVal": r.h.Cfg.MemVal})
@@ -438,6 +467,14 @@ func (r *runner) check(op int, where string) {
 	if len(miss) == 0 && len(readFail) == 0 {
 		return
 	}
+	if len(miss) == 0 {
+		// a read may have raced with the running background prune: let it finish and walk again
+		mavldb.VerifBWaitPrune()
+		visit = map[string]struct{}{}
+		for _, e := range ret {
+			r.walk(e.Root, e.H, r.rawGet, r.kvBefore, visit, &miss)
+		}
+	}
 	r.cnt["lost_live_nodes"] += int64(len(miss))
 	if len(miss) == 0 {
 		r.violate(op, "read-differs-without-lost-node", fmt.Sprintf("%s: %s", where, strings.Join(readFail, "; ")), nil)
@@ -457,14 +494,17 @@ func (r *runner) check(op int, where string) {
 }
 
 func printable(s string) string {
-	b := []byte(s)
-	if len(b) >= 32 && !strings.HasPrefix(s, "_m") {
-		return hex.EncodeToString(b)[:16] + "…"
+	hx := func(x string) string {
+		h := hex.EncodeToString([]byte(x))
+		if len(h) > 12 {
+			h = h[:12] + "…"
+		}
+		return h
 	}
-	if i := strings.LastIndex(s, "-"); i > 0 && i+1 < len(s) && strings.HasPrefix(s, "_m") {
-		return s[:i+1] + hex.EncodeToString([]byte(s[i+1:]))[:12] + "…"
+	if strings.HasPrefix(s, "_m") && len(s) > 16 {
+		return s[:16] + hx(s[16:])
 	}
-	return fmt.Sprintf("%q", s)
+	return hx(s)
 }
 
 // classify explains why the prune removed a live record, using the index as it was before the prune.
@@ -490,6 +530,17 @@ func (r *runner) classify(m missNode) (shape, why string) {
 		if g != e.Key || e.H <= bound {
 			elig[g] = append(elig[g], e)
 		}
+	}
+	p1, p2 := mavldb.VerifBLeafIndexPrefixes()
+	suffix := func(e idxEntry) string {
+		if e.Old {
+			return strings.TrimPrefix(e.DBKey, string(p2))
+		}
+		return strings.TrimPrefix(e.DBKey, string(p1))
+	}
+	for g := range elig {
+		es := elig[g]
+		sort.SliceStable(es, func(a, b int) bool { return suffix(es[a]) > suffix(es[b]) })
 	}
 	var causes []idxEntry
 	for _, e := range r.idxBefore {
@@ -591,6 +642,9 @@ func (r *runner) afterPrune(op int, where string) {
 	p1, p2 := mavldb.VerifBLeafIndexPrefixes()
 	for k := range r.kvBefore {
 		if _, ok := after[k]; !ok {
+			if os.Getenv("VERIF_C05_TRACE") != "" {
+				fmt.Fprintf(os.Stderr, "op %d prune cur=%d deleted %q\n", op, r.pruneCur, k)
+			}
 			if strings.HasPrefix(k, string(p1)) || strings.HasPrefix(k, string(p2)) {
 				delIdx++
 			} else {
@@ -622,14 +676,22 @@ func runHistory(h *History, dir string) (res HistResult) {
 	r.keys = append(r.keys, "~never-written", "")
 	sort.Strings(r.keys)
 	mavldb.VerifBResetGlobals()
+	mavldb.VerifBSetPruneGate(gate.fn)
+	started0 := gate.count()
+	expectedBg := int64(0)
 	os.RemoveAll(dir)
 	r.open()
 	defer func() {
+		gate.release()
 		if e := recover(); e != nil {
 			r.violate(res.OpsDone, "harness-panic", fmt.Sprint(e), nil)
 		}
 		guard(func() { r.closeStore() })
 		os.RemoveAll(dir)
+		r.cnt["background_prunes_started_by_store"] = gate.count() - started0
+		if gate.count()-started0 != expectedBg && !r.stop && len(r.viols) == 0 {
+			r.cnt["autoprune_replica_mismatch"]++
+		}
 		res.Counters = r.cnt
 		res.Viols = r.viols
 		res.Adjacent, res.Unexplained = r.adjacent, r.unexplained
@@ -680,8 +742,8 @@ func runHistory(h *History, dir string) (res HistResult) {
 				break
 			}
 			if trig {
-				r.snapshot()
-				r.pruneCur = H
+				gate.arm()
+				expectedBg++
 			}
 			var root []byte
 			var err error
@@ -695,6 +757,12 @@ func runHistory(h *History, dir string) (res HistResult) {
 					}
 				}
 			})
+			if trig {
+				// the prune goroutine (if the store started one) waits at the gate: snapshot what it will see
+				r.snapshot()
+				r.pruneCur = H
+				gate.release()
+			}
 			if p != "" || err != nil || root == nil {
 				r.cnt["commit_failures"]++
 				r.explainCommitFailure(i, H, fmt.Sprintf("commit at height %d on retained parent@%d failed: panic=%q err=%v", H, r.tipH(), lib.ShortList(strings.Split(p, "\n"), 1), err))
@@ -874,8 +942,9 @@ type minIn struct {
 }
 
 type minOut struct {
-	H      History `json:"h"`
-	Reruns int     `json:"reruns"`
+	H      History    `json:"h"`
+	Reruns int        `json:"reruns"`
+	Res    HistResult `json:"res"`
 }
 
 // childMin removes operations and key/values (re-running the real code each time) while the set of violation shapes
@@ -920,6 +989,7 @@ func childMin(in []byte) (any, error) {
 		}
 	}
 	out.H = h
+	out.Res = runHistory(&h, filepath.Join(tmp, "min"))
 	return out, nil
 }
 
@@ -1131,14 +1201,14 @@ func shapesOf(r HistResult) string {
 }
 
 // minimise delegates to one child process that re-runs candidate histories in-process.
-func minimise(c *lib.Ctx, h History, want string, budget int) History {
+func minimise(c *lib.Ctx, h History, want string, budget int) (History, *HistResult) {
 	res := c.Child("min", minIn{H: h, Want: want, Budget: budget}, lib.ChildOpts{Timeout: 4 * time.Minute})
 	var mo minOut
-	if res.Died || json.Unmarshal(res.Out, &mo) != nil || len(mo.H.Ops) == 0 {
-		return h
+	if res.Died || json.Unmarshal(res.Out, &mo) != nil || len(mo.H.Ops) == 0 || shapesOf(mo.Res) != want {
+		return h, nil
 	}
 	c.Count("minimisation_reruns", int64(mo.Reruns))
-	return mo.H
+	return mo.H, &mo.Res
 }
 
 func run(c *lib.Ctx) {
@@ -1247,10 +1317,9 @@ func run(c *lib.Ctx) {
 			if !strings.HasPrefix(j.h.Gen, "witness-") && len(minimised) < 12 {
 				// the minimised history must stay in its stratum, otherwise removal could manufacture a trigger
 				if want != "process-died" {
-					wit = minimise(c, j.h, want, 150)
-				}
-				if stratumOf(&wit) != j.stratum {
-					wit = j.h
+					if w, mr := minimise(c, j.h, want, 150); mr != nil && stratumOf(&w) == j.stratum {
+						wit, r = w, *mr
+					}
 				}
 			}
 			minimised[want] = true
